@@ -58,7 +58,9 @@ def cases(spec, ctx):
         r = configs.random_recipe(ctx.rng, {"maxw": 16, "maxh": 8, "max_slices": (3, 2), "max_dwt": 2, "max_depth_bits": 12})
         if not r["lossless"]:
             n = r["sx"] * r["sy"]
-            r["pb"] = ctx.rng.choice([n * 8, n * 20 + 3, n * 64]) if r["profile"] == 3 else ctx.rng.choice([n * 4, n * 9, n * 40 + 7])
+            # byte budgets with every remainder modulo the slice count (slice sizes then differ between slices)
+            rem = ctx.rng.randrange(n)
+            r["pb"] = (ctx.rng.choice([n * 8, n * 20, n * 64]) if r["profile"] == 3 else ctx.rng.choice([n * 4, n * 9, n * 12, n * 40])) + rem
         yield {"recipe": r}
 
 
